@@ -1,11 +1,97 @@
 (* C01 -- RDD pipelines compute plain-list semantics for every partitioning.
-   Only statements, each closed by [exact] of a lemma from PV.Proofs.Rdd*. *)
+   Only statements, each closed by [exact] of a lemma from PV.Proofs.Rdd*.
+
+   Model: PV.Model.Rdd.  A dataset is its list of partitions; [parallelize], [apply_tr], [run_act]
+   transcribe context.py / rdd.py; [apply_list], [run_list] are the plain-Python-list meanings.
+   All statements are equations in the error monad [res]: equal value, or the same exception class.
+   They quantify over ALL input lists, slice counts, partitionings, pipelines and user functions
+   (arbitrary Gallina functions into [res]); premises appear only where Spark itself needs them. *)
 From Coq Require Import String ZArith NArith List Bool.
-Require Import PV.Base.Val PV.Model.Rdd PV.Model.RddLib PV.Proofs.Rdd.
+Require Import PV.Base.Val PV.Model.Rdd PV.Model.RddLib.
+Require Import PV.Proofs.Rdd PV.Proofs.RddTr PV.Proofs.RddAct PV.Proofs.RddLib.
 Import ListNotations.
 Open Scope Z_scope.
 
-(* contiguous slicing: for EVERY input list and EVERY slice count (negative, zero, larger than the input)
-   the partitions of parallelize, read in order, are the input *)
+(* ---- contiguous slicing: for EVERY input and EVERY slice count (negative, zero, larger than the
+   input) the partitions of parallelize, read in order, are the input *)
 Theorem C01_parallelize_flat : forall (xs : list val) (n : Z), concat (parallelize xs n) = xs.
 Proof. exact parallelize_flat. Qed.
+
+(* ---- every transformation: the flat content of the result is the plain-list result on the flat
+   content (or both raise the same exception), for every partitioning with at least one partition.
+   [tr_ok]: not glom (own law below); mapPartitions for partition-homomorphic functions; coalesce(k >= 1). *)
+Theorem C01_tr_flat : forall (t : tr) (ps : parts), tr_ok t -> ps <> [] ->
+  rmap (@concat val) (apply_tr t ps) = apply_list t (concat ps).
+Proof. exact tr_flat. Qed.
+
+Theorem C01_glom_law : forall ps : parts,
+  apply_tr TGlom ps = Ok (map (fun p => [VList p]) ps) /\
+  concat (map (fun v => match v with VList l => l | _ => [] end) (concat (map (fun p => [VList p]) ps))) = concat ps.
+Proof. exact glom_law. Qed.
+
+(* ---- every action except mean/countByValue (below): the result on the partitions is the plain-list
+   result on the flat content.  [act_ok]: reduce needs an associative operator, fold/aggregate need
+   Spark's contract [agg_hom], take/top/takeOrdered a non-negative count, min/max a non-empty dataset. *)
+Theorem C01_act_flat : forall (a : act) (ps : parts), act_ok a (concat ps) ->
+  run_act a ps = run_list a (concat ps).
+Proof. exact act_flat. Qed.
+
+Theorem C01_reduce_flat : forall (f : op2) (ps : parts), assoc_m f ->
+  run_act (AReduce f) ps = run_list (AReduce f) (concat ps).
+Proof. exact reduce_flat. Qed.
+
+Theorem C01_aggregate_flat : forall (z : val) (seq comb : op2) (ps : parts), agg_hom z seq comb ->
+  run_act (AAggregate z seq comb) ps = run_list (AAggregate z seq comb) (concat ps).
+Proof. exact aggregate_flat. Qed.
+
+Theorem C01_fold_flat : forall (z : val) (op : op2) (ps : parts), agg_hom z op op ->
+  run_act (AFold z op) ps = run_list (AFold z op) (concat ps).
+Proof. exact fold_flat. Qed.
+
+(* ---- reducing an empty dataset raises ValueError: any operator, any number of (empty) partitions *)
+Theorem C01_reduce_empty : forall (f : op2) (ps : parts), concat ps = [] ->
+  run_act (AReduce f) ps = Err "ValueError".
+Proof. exact reduce_empty. Qed.
+
+(* ---- whole pipelines: parallelize, any list of stages, any action -- equal to the plain-list pipeline *)
+Theorem C01_pipeline : forall (ts : list tr) (a : act) (xs : list val) (n : Z),
+  Forall tr_ok ts -> (forall ys, apply_lists ts xs = Ok ys -> act_ok a ys) ->
+  pipeline_rdd ts a xs n = pipeline_list ts a xs.
+Proof. exact pipeline_flat. Qed.
+
+(* ---- hence the result, including element order, is the same for every two slice counts *)
+Corollary C01_slices_irrelevant : forall (ts : list tr) (a : act) (xs : list val) (n m : Z),
+  Forall tr_ok ts -> (forall ys, apply_lists ts xs = Ok ys -> act_ok a ys) ->
+  pipeline_rdd ts a xs n = pipeline_rdd ts a xs m.
+Proof. exact slices_irrelevant. Qed.
+
+(* ---- non-vacuity: library members satisfy the premises, others do not *)
+Theorem C01_lib_assoc : assoc_m op_add /\ assoc_m op_max /\ assoc_m op_mul /\ assoc_m op_extend /\ ~ assoc_m op_sub.
+Proof. exact (conj op_add_assoc (conj op_max_assoc (conj op_mul_assoc (conj op_extend_assoc op_sub_not_assoc)))). Qed.
+
+Theorem C01_lib_agg_hom :
+  agg_hom (VInt 0) op_add op_add /\ agg_hom (VList []) op_append op_extend /\
+  agg_hom (VInt 0) op_count op_add /\ ~ agg_hom (VInt 1) op_add op_add.
+Proof. exact (conj sum_agg_hom (conj collect_agg_hom (conj count_agg_hom one_not_agg_hom))). Qed.
+
+Theorem C01_lib_part_hom : part_hom mp_id /\ part_hom mp_inc /\ part_hom mp_dup /\ part_hom mp_evens /\ ~ part_hom mp_rev.
+Proof. exact (conj mp_id_hom (conj mp_inc_hom (conj mp_dup_hom (conj mp_evens_hom mp_rev_not_hom)))). Qed.
+
+(* sanity on doctest inputs of rdd.py *)
+Example ex_parallelize : parallelize (map VInt [1; 2; 3; 4; 5; 6; 7; 8]) 5 =
+  map (map VInt) [[1]; [2; 3]; [4]; [5; 6]; [7; 8]].
+Proof. vm_compute. reflexivity. Qed.
+Example ex_coalesce : apply_tr (TCoalesce 3) (map (map VInt) [[1]; [2; 3]; [4]; [5; 6]; [7; 8]]) =
+  Ok (map (map VInt) [[1; 2; 3]; [4; 5; 6]; [7; 8]]).
+Proof. vm_compute. reflexivity. Qed.
+Example ex_aggregate :
+  pipeline_rdd [] (AAggregate (VTup [VInt 0; VInt 0]) op_sumcount op_pairadd) (map VInt [1; 2; 3; 4]) 2 =
+  Ok (VTup [VInt 10; VInt 4]).
+Proof. vm_compute. reflexivity. Qed.
+Example ex_pipeline :
+  pipeline_rdd [TMap f_inc; TFilter p_even; TFlatMap g_dup; TSortBy k_neg true None; TCoalesce 2]
+               (AReduce op_add) (map VInt [0; 4; 7; 4; 10]) 3 = Ok (VInt 16) /\
+  Forall tr_ok [TMap f_inc; TFilter p_even; TFlatMap g_dup; TSortBy k_neg true None; TCoalesce 2].
+Proof. split; [vm_compute; reflexivity|]. repeat constructor; easy. Qed.
+Example ex_reduce_empty : pipeline_rdd [TFilter p_false] (AReduce op_add) (map VInt [1; 2; 3]) 10 = Err "ValueError".
+Proof. vm_compute. reflexivity. Qed.
